@@ -530,4 +530,265 @@ theorem rdHeader_generic (i16 : Bool) (c r f t : Int) (nm : Str) (P N D : Nat) (
       omega
     simp only [hlen, if_true, parseFormat_specOf P N D hP hN]
 
+/-! ### a whole matrix -/
+
+/-- the name field of the title line: upper case, padded to 8 -/
+def nameStr (name : List Nat) : Str := (name.map upperB).map Char.ofNat ++ List.replicate (8 - name.length) ' '
+
+structure WfA (m : Mat) : Prop where
+  cols_len : ∀ col ∈ m.cols, col.length = m.rows
+  rows_lt : 6 * m.rows < 10 ^ 8
+  ncols_lt : m.cols.length + 1 < 10 ^ 8
+  form_lt : m.form < 10 ^ 8
+  name_ident : isIdent m.name = true
+  name_len : m.name.length ≤ 8
+
+theorem ofNat_toNat (b : Nat) (h : b < 128) : (Char.ofNat b).toNat = b := by
+  have hv : b.isValidChar := by left; omega
+  simp [Char.ofNat, hv, Char.toNat, Char.ofNatAux]
+
+theorem nameStr_length (name : List Nat) (h : name.length ≤ 8) : (nameStr name).length = 8 := by
+  simp [nameStr]; omega
+
+theorem nameStr_chars (name : List Nat) (h : isIdent name = true) :
+    ∀ x ∈ nameStr name, x ≠ '|' ∧ x ≠ '\n' := by
+  intro x hx
+  simp only [nameStr, List.mem_append, List.mem_map] at hx
+  rcases hx with ⟨b', ⟨b, hb, rfl⟩, rfl⟩ | hx
+  · have hal := (List.all_eq_true.1 (isIdent_all name h)) b hb
+    rw [isAlnumU_iff] at hal
+    have hu : upperB b < 128 ∧ upperB b ≠ 124 ∧ upperB b ≠ 10 := by
+      unfold upperB; split <;> omega
+    have := ofNat_toNat (upperB b) hu.1
+    constructor
+    · intro hc; rw [hc] at this; have : (124 : Nat) = upperB b := this; omega
+    · intro hc; rw [hc] at this; have : (10 : Nat) = upperB b := this; omega
+  · rw [List.eq_of_mem_replicate hx]; constructor <;> decide
+
+/-- what `_loadop4_ascii` reads from the title line -/
+def hdrOf (d : Nat) (m : Mat) (big : Bool) : Hdr :=
+  { cols := (m.cols.length : Int), rows := if big then -(m.rows : Int) else (m.rows : Int), form := (m.form : Int),
+    mtype := (mtypeOf m.cplx : Int), name := nameStr m.name, perline := perline d, numlen := numlen d }
+
+theorem asciiHeader_eq (d : Nat) (m : Mat) (big : Bool) :
+    asciiHeader d m big =
+      fmtInt (if decide (m.rows > 9999999) then 16 else 8) (m.cols.length : Int) ++
+        fmtInt (if decide (m.rows > 9999999) then 16 else 8) (if big then -(m.rows : Int) else (m.rows : Int)) ++
+        fmtInt 8 (m.form : Int) ++ fmtInt 8 (mtypeOf m.cplx : Int) ++ nameStr m.name ++
+        (specOf (perline d) (numlen d) d ++ (if decide (m.rows > 9999999) then "|I16".toList else [])) ++ ['\n'] := by
+  unfold asciiHeader nameStr specOf
+  have h3 : "1P,".toList = ['1', 'P', ','] := by rfl
+  by_cases h : m.rows > 9999999
+  · simp [h, h3, List.append_assoc]
+  · simp [h, h3, List.append_assoc]
+
+theorem mtype_fits (cplx : Bool) : IntFits 8 (mtypeOf cplx : Int) := by
+  cases cplx <;> exact intFits_nat 8 _ (by omega) (by simp [mtypeOf])
+
+theorem rdHeader_asciiHeader (d : Nat) (m : Mat) (big : Bool) (hwf : WfA m) (hp : 1 ≤ perline d) :
+    rdHeader (asciiHeader d m big) = some (some (hdrOf d m big)) := by
+  rw [asciiHeader_eq]
+  have hN := numlen_pos d
+  have hnm := nameStr_length m.name hwf.name_len
+  have hbar : '|' ∉ nameStr m.name := fun hx => (nameStr_chars m.name hwf.name_ident _ hx).1 rfl
+  have hrows := hwf.rows_lt
+  have hncols := hwf.ncols_lt
+  have hform := hwf.form_lt
+  apply rdHeader_generic (decide (m.rows > 9999999)) _ _ _ _ _ _ _ d hp hN _ _ _ (mtype_fits m.cplx) hnm hbar
+  · -- cols
+    by_cases h : m.rows > 9999999
+    · simp only [h, decide_true, if_true]; exact intFits_nat 16 _ (by omega) (by omega)
+    · simp only [h, decide_false, Bool.false_eq_true, if_false]; exact intFits_nat 8 _ (by omega) (by omega)
+  · -- rows
+    by_cases h : m.rows > 9999999
+    · simp only [h, decide_true, if_true]
+      cases big
+      · simp only [Bool.false_eq_true, if_false]; exact intFits_nat 16 _ (by omega) (by omega)
+      · simp only [if_true]
+        have := intChars_length_neg m.rows 15 (by omega) (by omega)
+        exact this
+    · simp only [h, decide_false, Bool.false_eq_true, if_false]
+      cases big
+      · simp only [Bool.false_eq_true, if_false]; exact intFits_nat 8 _ (by omega) (by omega)
+      · simp only [if_true]
+        have := intChars_length_neg m.rows 7 (by omega) (by omega)
+        exact this
+  · exact intFits_nat 8 _ (by omega) hform
+
+theorem asciiHeader_isLines (d : Nat) (m : Mat) (big : Bool) (hwf : WfA m) :
+    IsLines (asciiHeader d m big) [asciiHeader d m big] := by
+  rw [asciiHeader_eq]
+  apply IsLines.line
+  intro c hc
+  have h4 : "|I16".toList = ['|', 'I', '1', '6'] := by rfl
+  simp only [List.mem_append] at hc
+  rcases hc with ((((h | h) | h) | h) | h) | (h | h)
+  · exact (fmtInt_fieldChar _ _ c h).ne_nl
+  · exact (fmtInt_fieldChar _ _ c h).ne_nl
+  · exact (fmtInt_fieldChar _ _ c h).ne_nl
+  · exact (fmtInt_fieldChar _ _ c h).ne_nl
+  · exact (nameStr_chars m.name hwf.name_ident c h).2
+  · rcases mem_specOf _ _ _ c h with h | h | h | h | h | h
+    · rw [h]; decide
+    · rw [h]; decide
+    · rw [h]; decide
+    · rw [h]; decide
+    · rw [h]; decide
+    · intro hc; rw [hc] at h; revert h; decide
+  · split at h
+    · rw [h4] at h
+      simp only [List.mem_cons, List.not_mem_nil, or_false] at h
+      rcases h with h | h | h | h <;> rw [h] <;> decide
+    · simp at h
+
+/-- the two lines that end a matrix -/
+theorem asciiTrailer_isLines (d ncols : Nat) :
+    IsLines (asciiTrailer d ncols) [trailerHead ncols, fmtE d sqrt2Bits ++ ['\n']] := by
+  unfold asciiTrailer trailerHead
+  have h1 : ((ncols + 1 : Nat) : Int) = (ncols : Int) + 1 := by push_cast; rfl
+  rw [h1]
+  have ha := intLine3_isLines ((ncols : Int) + 1) 1 1
+  have hb : IsLines (fmtE d sqrt2Bits ++ ['\n']) [fmtE d sqrt2Bits ++ ['\n']] :=
+    IsLines.line _ fun c hc => (fmtE_fieldChar d _ c hc).ne_nl
+  have := ha.append hb
+  simpa [intLine3, List.append_assoc] using this
+
+/-- a matrix as lines: title line, the records of the non-zero columns, the two trailer lines -/
+def matLines (d : Nat) (lay : Layout) (m : Mat) : List Str :=
+  asciiHeader d m (lay == .bigmat) :: ((arecsOf d lay m.cplx 0 m.cols).flatMap ARec.lines ++
+    [trailerHead m.cols.length, fmtE d sqrt2Bits ++ ['\n']])
+
+theorem encMatAscii_isLines (d : Nat) (hp : 1 ≤ perline d) (lay : Layout) (m : Mat) (hwf : WfA m) :
+    IsLines (encMatAscii d lay m) (matLines d lay m) := by
+  unfold matLines
+  cases lay
+  · exact ((asciiHeader_isLines d m false hwf).append (ascCols_isLines d hp .dense m.cplx m.cols 0)).append
+      (asciiTrailer_isLines d m.cols.length)
+  · exact ((asciiHeader_isLines d m true hwf).append (ascCols_isLines d hp .bigmat m.cplx m.cols 0)).append
+      (asciiTrailer_isLines d m.cols.length)
+  · exact ((asciiHeader_isLines d m false hwf).append (ascCols_isLines d hp .nonbigmat m.cplx m.cols 0)).append
+      (asciiTrailer_isLines d m.cols.length)
+
+theorem arecOf_r (d : Nat) (lay : Layout) (cplx : Bool) (c : Nat) (col : List Entry) (s : Nat) (tl : List Nat) :
+    (lay = .dense → 0 < (arecOf d lay cplx c col s tl).r) ∧ (lay ≠ .dense → (arecOf d lay cplx c col s tl).r = 0) := by
+  cases lay <;> simp [arecOf]
+
+theorem arecsOf_r (d : Nat) (lay : Layout) (cplx : Bool) :
+    ∀ (cols : List (List Entry)) (c : Nat), ∀ rc ∈ arecsOf d lay cplx c cols,
+      (lay = .dense → 0 < rc.r) ∧ (lay ≠ .dense → rc.r = 0) := by
+  intro cols
+  induction cols with
+  | nil => intro c rc hrc; simp [arecsOf] at hrc
+  | cons col t ih =>
+    intro c rc hrc
+    unfold arecsOf at hrc
+    split at hrc
+    · exact ih (c + 1) rc hrc
+    · rcases List.mem_cons.1 hrc with rfl | hrc
+      · exact arecOf_r d lay cplx c col _ _
+      · exact ih (c + 1) rc hrc
+
+theorem arecsOf_ne_nil (d : Nat) (lay : Layout) (cplx : Bool) :
+    ∀ (cols : List (List Entry)) (c : Nat), arecsOf d lay cplx c cols ≠ [] → ∃ col ∈ cols, 0 < col.length := by
+  intro cols
+  induction cols with
+  | nil => intro c h; simp [arecsOf] at h
+  | cons col t ih =>
+    intro c h
+    unfold arecsOf at h
+    split at h
+    · obtain ⟨x, hx, hl⟩ := ih (c + 1) h
+      exact ⟨x, List.mem_cons_of_mem _ hx, hl⟩
+    · next s tl hnz =>
+      have hs_mem : s ∈ nzIdx cplx col := by rw [hnz]; exact List.mem_cons_self
+      obtain ⟨xs, hxs, _⟩ := (mem_nzIdx _ _ _).1 hs_mem
+      have := (List.getElem?_eq_some_iff.1 hxs).1
+      exact ⟨col, List.mem_cons_self, by omega⟩
+
+theorem goodCfg_of_mtype (dformat : Bool) (d : Nat) (cplx : Bool) :
+    GoodCfg { dformat := dformat, cplx := decide ((3 : Int) ≤ (mtypeOf cplx : Int)),
+              wper := if ((mtypeOf cplx : Nat) : Int) % 2 = 1 then 1 else 2, perline := perline d, numlen := numlen d }
+      d cplx := by
+  cases cplx <;> simp [GoodCfg, mtypeOf]
+
+theorem lines_length_ge (recs : List ARec) : recs.length ≤ (recs.flatMap ARec.lines).length :=
+  flatMap_length_ge _ _ fun rc _ => by simp [ARec.lines]
+
+/-- `_loadop4_ascii` on the lines of a written matrix -/
+theorem rdMatrixA_enc (dformat : Bool) (d : Nat) (hd : 1 ≤ d) (hp : 1 ≤ perline d) (lay : Layout) (m : Mat)
+    (hwf : WfA m) (hnb : lay = .nonbigmat → m.rows < 65536)
+    (hfit : ∀ col ∈ m.cols, ∀ x ∈ col, ∀ b ∈ entryDs m.cplx x, Fits d b) (rest : List Str) :
+    ∃ lay' auto, rdMatrixA dformat (matLines d lay m ++ rest) =
+      some (some ({ rawName := nameStr m.name,
+                    rows := if lay = .bigmat then -(m.rows : Int) else (m.rows : Int),
+                    cols := (m.cols.length : Int), form := (m.form : Int), mtype := (mtypeOf m.cplx : Int),
+                    perline := perline d, numlen := numlen d, layout := lay', sparseAuto := auto,
+                    puts := (arecsOf d lay m.cplx 0 m.cols).flatMap ARec.outPuts }, rest)) := by
+  have hgc := goodCfg_of_mtype dformat d m.cplx
+  have hrowsb : 6 * m.rows < 10 ^ 8 := hwf.rows_lt
+  have hgood := arecsOf_good _ d m.cplx hgc hd hp lay m.cols.length m.rows hwf.ncols_lt hrowsb hnb m.cols 0
+    (by omega) hwf.cols_len hfit
+  have hnfit : IntFits 8 ((m.cols.length + 1 : Nat) : Int) := intFits_nat 8 _ (by omega) hwf.ncols_lt
+  have hrows_eq : (hdrOf d m (lay == .bigmat)).rows = if lay = .bigmat then -(m.rows : Int) else (m.rows : Int) := by
+    cases lay <;> simp [hdrOf]
+  unfold matLines
+  simp only [List.cons_append, rdMatrixA, rdHeader_asciiHeader d m _ hwf hp]
+  generalize hrecs : arecsOf d lay m.cplx 0 m.cols = recs at hgood
+  cases recs with
+  | nil =>
+    simp only [List.flatMap_nil, List.nil_append, List.cons_append, trailerHead,
+      colHead_intLine3 _ _ _ hnfit intFits_one]
+    have hc0 : ((m.cols.length + 1 : Nat) : Int) - 1 = (m.cols.length : Int) := by omega
+    rw [hc0]
+    have hge : decide ((m.cols.length : Int) ≥ (hdrOf d m (lay == .bigmat)).cols) = true := by simp [hdrOf]
+    rw [hge]
+    have hcols : (hdrOf d m (lay == .bigmat)).cols = (m.cols.length : Int) := rfl
+    rcases hcl : (chooseLayout (hdrOf d m (lay == .bigmat)).rows 1 true).1 with _ | _ | _
+    · simp only [hcols, rdDense_succ, Int.lt_irrefl, if_false, List.drop_one, List.tail_cons, hrows_eq]
+      exact ⟨_, _, rfl⟩
+    · simp only [hcols, rdSparse_succ, Int.lt_irrefl, if_false, List.drop_one, List.tail_cons, hrows_eq]
+      exact ⟨_, _, rfl⟩
+    · simp only [hcols, rdSparse_succ, Int.lt_irrefl, if_false, List.drop_one, List.tail_cons, hrows_eq]
+      exact ⟨_, _, rfl⟩
+  | cons hd' t =>
+    have hg := hgood hd' List.mem_cons_self
+    have hgt : ∀ rc ∈ t, rc.Good _ lay m.cols.length := fun x hx => hgood x (List.mem_cons_of_mem _ hx)
+    simp only [List.flatMap_cons, ARec.lines, List.cons_append, ARec.head, colHead_intLine3 _ _ _ hg.fc hg.fr]
+    have hc0 : ((hd'.c + 1 : Nat) : Int) - 1 = (hd'.c : Int) := by omega
+    rw [hc0]
+    have hcge : decide ((hd'.c : Int) ≥ (hdrOf d m (lay == .bigmat)).cols) = false := by
+      have := hg.hc; simp [hdrOf]; omega
+    have hr := arecsOf_r d lay m.cplx m.cols 0 hd' (by rw [hrecs]; exact List.mem_cons_self)
+    obtain ⟨col, hcol, hlen⟩ := arecsOf_ne_nil d lay m.cplx m.cols 0 (by rw [hrecs]; simp)
+    have hrows_pos : 0 < m.rows := by rw [← hwf.cols_len col hcol]; exact hlen
+    have hlay := chooseLayout_col lay m.rows hd'.r hrows_pos hnb hr.1 hr.2
+    rw [hcge, hrows_eq, hlay]
+    have hcols : (hdrOf d m (lay == .bigmat)).cols = (m.cols.length : Int) := rfl
+    have hmt : (hdrOf d m (lay == .bigmat)).mtype = (mtypeOf m.cplx : Int) := rfl
+    have hpl : (hdrOf d m (lay == .bigmat)).perline = perline d := rfl
+    have hnl : (hdrOf d m (lay == .bigmat)).numlen = numlen d := rfl
+    have hfuel : t.length + 2 ≤ (hd'.body ++ (t.flatMap ARec.lines ++
+        (trailerHead m.cols.length :: (fmtE d sqrt2Bits ++ ['\n']) :: rest))).length + 1 := by
+      have := lines_length_ge t
+      simp only [List.length_append, List.length_cons]; omega
+    cases lay with
+    | dense =>
+      have hch := rdDense_chain _ m.cols.length hnfit ((fmtE d sqrt2Bits ++ ['\n']) :: rest) t hd' _ [] hfuel hg hgt
+      simp only [hcols, hmt, hpl, hnl, ARec.head, List.append_assoc, List.cons_append, List.nil_append] at hch ⊢
+      rw [hch]
+      simp only [List.drop_one, List.tail_cons, List.nil_append]
+      exact ⟨_, _, rfl⟩
+    | bigmat =>
+      have hch := rdSparse_chain _ true m.cols.length hnfit ((fmtE d sqrt2Bits ++ ['\n']) :: rest) t hd' _ [] hfuel hg hgt
+      simp only [hcols, hmt, hpl, hnl, ARec.head, List.append_assoc, List.cons_append, List.nil_append] at hch ⊢
+      rw [hch]
+      simp only [List.drop_one, List.tail_cons, List.nil_append]
+      exact ⟨_, _, rfl⟩
+    | nonbigmat =>
+      have hch := rdSparse_chain _ false m.cols.length hnfit ((fmtE d sqrt2Bits ++ ['\n']) :: rest) t hd' _ [] hfuel hg hgt
+      simp only [hcols, hmt, hpl, hnl, ARec.head, List.append_assoc, List.cons_append, List.nil_append] at hch ⊢
+      rw [hch]
+      simp only [List.drop_one, List.tail_cons, List.nil_append]
+      exact ⟨_, _, rfl⟩
+
 end PyYetiVerif.Op4A
